@@ -66,6 +66,7 @@ class _Worker:
         open(self.journal, "w").close()
         self.jpos = 0
         self.opos = 0
+        self.all_done_since = None
         self.cur = None
         so = open(self.stdout, "w")
         se = open(self.stderr, "w")
@@ -202,6 +203,18 @@ def pmap(func, cases, jobs=None, cpu_budget=30.0, wall_budget=None, env=None, ke
                     if w.items:
                         w.start()
                     else:
+                        active.remove(w)
+                    continue
+                if all(i in w.done for (i, c) in w.items):
+                    # every case of this worker has reported, but the process is still there (met: a heap corrupted by native
+                    # code made the interpreter spin in its own epilogue): its results stand, the process is not waited for
+                    t_done = w.all_done_since
+                    if t_done is None:
+                        w.all_done_since = time.time()
+                    elif time.time() - t_done > 5.0:
+                        w.kill()
+                        for i, r in w.done.items():
+                            results[i] = r
                         active.remove(w)
                     continue
                 if w.cur is not None and w.cur not in w.done:
